@@ -12,12 +12,12 @@ CORPORA = {
     "refslice": dict(model="MC_RefSlice",
                      quick=dict(MaxLen=24, MaxDecl=40), thorough=dict(MaxLen=40, MaxDecl=56),
                      profiles=DEV_REL, place="both"),
-    "fields": dict(model="MC_Info", cfg="MC_Fields", quick={}, thorough={}, profiles=DEV_REL, place="both"),
-    "getters": dict(model="MC_Info", cfg="MC_Getters", quick=dict(MaxTags=3), thorough=dict(MaxTags=4), profiles=DEV_REL, place="end"),
-    "dst": dict(model="MC_Info", cfg="MC_Dst", quick=dict(DstExtra=9), thorough=dict(DstExtra=33), profiles=DEV_REL, place="both"),
-    "fb": dict(model="MC_Info", cfg="MC_Fb", quick={}, thorough={}, profiles=DEV_REL, place="both"),
-    "efi": dict(model="MC_Info", cfg="MC_Efi", quick=dict(MaxD=56, LCap=64), thorough=dict(MaxD=128, LCap=200), profiles=DEV_REL, place="both"),
-    "elf": dict(model="MC_Info", cfg="MC_Elf", quick=dict(MaxN=3), thorough=dict(MaxN=4, ElfSizes="{0, 1, 8, 24, 39, 40, 41, 48, 63, 64, 65, 72, 128}", ElfRots="{0, 3, 5, 7}"),
+    "fields": dict(model="MC_Fields", quick={}, thorough={}, profiles=DEV_REL, place="both"),
+    "getters": dict(model="MC_Getters", quick=dict(MaxTags=3), thorough=dict(MaxTags=4), profiles=DEV_REL, place="end"),
+    "dst": dict(model="MC_Dst", quick=dict(DstExtra=9), thorough=dict(DstExtra=33), profiles=DEV_REL, place="both"),
+    "fb": dict(model="MC_Fb", quick={}, thorough={}, profiles=DEV_REL, place="both"),
+    "efi": dict(model="MC_Efi", quick=dict(MaxD=56, LCap=64), thorough=dict(MaxD=128, LCap=200), profiles=DEV_REL, place="both"),
+    "elf": dict(model="MC_Elf", quick=dict(MaxN=3, ElfRots="{0, 3, 6, 7}"), thorough=dict(MaxN=4, ElfSizes="{0, 1, 8, 24, 39, 40, 41, 48, 63, 64, 65, 72, 128}", ElfRots="{0, 3, 5, 7}"),
                 profiles=DEV_REL, place="both"),
     "hload": dict(model="MC_Header", cfg="MC_HLoad", quick=dict(MaxLen=64), thorough=dict(MaxLen=160), profiles=DEV_REL, place="both"),
     "hwalk": dict(model="MC_Header", cfg="MC_HWalk", quick=dict(MaxL=32), thorough=dict(MaxL=48), profiles=DEV_REL, place="both"),
@@ -33,8 +33,10 @@ CORPORA = {
     "boxed": dict(model="MC_Build", cfg="MC_Boxed", quick=dict(MaxTotal=8), thorough=dict(MaxTotal=17), profiles=DEV_REL, place="end"),
     "builder": dict(model="MC_Build", cfg="MC_Builder", quick=dict(MaxSeq=2), thorough=dict(MaxSeq=3), profiles=DEV_REL, place="end"),
     "hbuilder": dict(model="MC_Build", cfg="MC_HBuilder", quick=dict(MaxSeq=3), thorough=dict(MaxSeq=4), profiles=DEV_REL, place="end"),
-    "str": dict(model="MC_Info", cfg="MC_Str", quick=dict(MaxStr=3), thorough=dict(MaxStr=4), profiles=DEV_REL, place="both"),
+    "str": dict(model="MC_Str", quick=dict(MaxStr=3), thorough=dict(MaxStr=4), profiles=DEV_REL, place="both"),
     "typeids": dict(model="MC_TypeIds", quick={}, thorough={}, profiles=DEV_REL, place="end"),
+    "rsdp": dict(model="MC_Rsdp", quick={}, thorough={}, profiles=DEV_REL, place="both"),
+    "sized": dict(model="MC_Sized", quick=dict(SizedSpread=9), thorough=dict(SizedSpread=17), profiles=DEV_REL, place="both"),
     "load": dict(model="MC_Load", quick=dict(MaxT=72), thorough=dict(MaxT=160), profiles=DEV_REL, place="both"),
     "walk": dict(model="MC_Walk", quick=dict(MaxT=32), thorough=dict(MaxT=40), profiles=DEV_REL, place="both"),
 }
@@ -48,7 +50,7 @@ CHECKS = {
                 rule="TLC-judged: every interval end point +-2 of the three classification tables and structured values, each with 3 partner "
                      "values for the equality relations; all 256 framebuffer type bytes; native sweep of u32 values (stride 1 = all 2^32 in the "
                      "thorough tier) against the interval tables exported from the specification"),
-    "C15": dict(corpora=["dst", "hdst", "fields", "getters"],
+    "C15": dict(corpora=["dst", "sized", "hdst", "fields", "getters"],
                 rule="every built-in kind of both crates viewed at every declared size (variable-length kinds 0..base+3*elem+DstExtra, "
                      "header-tag kinds 0..40) and at its conformant size; non-trivial = casts that return a view"),
     "C17": dict(corpora=["str", "ctor", "dst"],
@@ -82,10 +84,10 @@ CHECKS = {
     "C19": dict(corpora=["elf"],
                 rule="all (count 0..MaxN, entry size in ElfSizes, string-table index 0..n+1, section bytes in {0, n*es-1, n*es, n*es+8}, "
                      "raw-type rotation); names resolved through a string table mapped at a fixed external address"),
-    "C01": dict(corpora=["fields", "getters", "dst", "fb", "efi", "elf", "walk", "load"],
+    "C01": dict(corpora=["fields", "getters", "dst", "sized", "fb", "rsdp", "efi", "elf", "walk", "load"],
                 rule="union of the boot-information corpora (every kind, every declared size, all framebuffer type bytes, "
                      "all walks); every call of every session is checked for crash/hang and for extents inside the owning tag"),
-    "C04": dict(corpora=["fields", "getters", "fb"],
+    "C04": dict(corpora=["fields", "getters", "fb", "rsdp"],
                 rule="fields: every kind at its conformant size x 2 marker fills x 2 positions, every accessor; "
                      "getters: all sequences of <= MaxTags tags over 6 kinds (duplicates use different fills); fb: all 256 type bytes"),
     "C05": dict(corpora=["dst", "fb", "hdst"],
